@@ -569,6 +569,36 @@ def check(idx: Index, rep: Report, tier: str) -> str:
     else:
         r8.ok(rf.fq, f"{rf.loc} each replacement is applied to a sub-expression of the receiver only")
 
+    # ---- R9 the SSA-id printer parenthesises every binary expression by precedence
+    r9 = rep.rule("C26.R9", "every branch of the SSA-id affine printer that prints a binary expression decides on parentheses by comparing its precedence with the minimum precedence handed in", floor=1)
+    pf = idx.func("xdsl/dialects/affine.py", "_print_affine_expr_of_ssa_ids")
+    if len(pf.node.args.args) < 4:
+        raise AnalysisError(f"{pf.fq}: minimum-precedence parameter not found")
+    mp = pf.node.args.args[3].arg
+    nbin = 0
+    for mt in [x for x in walk_local(pf.node) if isinstance(x, ast.Match)]:
+        for case in mt.cases:
+            pat = case.pattern
+            if not (isinstance(pat, ast.MatchClass) and unparse(pat.cls).split(".")[-1] == "AffineBinaryOpExpr"):
+                continue
+            nbin += 1
+            inst = f"{pf.fq}:case@{pat.lineno - pf.node.lineno}"
+            reads = [x for b_ in case.body for x in ast.walk(b_) if isinstance(x, ast.Compare) and any(isinstance(y, ast.Name) and y.id == mp for y in ast.walk(x))]
+            if reads:
+                r9.ok(inst, f"{pf.module.relpath}:{pat.lineno} parentheses decided by `{unparse(reads[0])}`")
+            else:
+                r9.fail(inst, Finding("C26.R9", pf.fq, "precedence-ignored", f"the branch `case {unparse(pat)[:70]}` prints an infix expression without comparing its precedence with `{mp}`: as the left operand of a tighter operator (`(%i - 1) floordiv 2`) it is printed without parentheses and the text parses back as another expression (`%i - (1 floordiv 2)`)", f"{pf.module.relpath}:{pat.lineno}"))
+    for cond in [x for x in walk_local(pf.node) if isinstance(x, ast.If) and re.search(r"isinstance\(\w+, (\w+\.)*AffineBinaryOpExpr\)", unparse(x.test))]:
+        nbin += 1
+        inst = f"{pf.fq}:if@{cond.lineno - pf.node.lineno}"
+        reads = [x for b_ in cond.body for x in ast.walk(b_) if isinstance(x, ast.Compare) and any(isinstance(y, ast.Name) and y.id == mp for y in ast.walk(x))]
+        if reads:
+            r9.ok(inst, f"{pf.module.relpath}:{cond.lineno} parentheses decided by `{unparse(reads[0])}`")
+        else:
+            r9.fail(inst, Finding("C26.R9", pf.fq, "precedence-ignored", f"the branch `if {unparse(cond.test)[:70]}` prints an infix expression without comparing its precedence with `{mp}`: as the left operand of a tighter operator it is printed without parentheses and the text parses back as another expression", f"{pf.module.relpath}:{cond.lineno}"))
+    if nbin == 0:
+        raise AnalysisError(f"{pf.fq}: no branch for AffineBinaryOpExpr found")
+
     return (
         "Table agreement between the six dispatchers over AffineBinaryOpKind (binary, eval, constant folding, token "
         "printing and the affine parser, operator constructors, the flattener), reflected-operator rule, and two structural "
